@@ -5,6 +5,7 @@ f11_0:
   ret
   call f9_0
   lea d_f11_0(%rip),%rax
+  mov wvsv1@GOTPCREL(%rip),%rax
   ret
 .section .data.d_f11_0,"aw",@progbits
 .globl d_f11_0
